@@ -855,44 +855,8 @@ class BeartypeConf(object):
             # value of the ${BEARTYPE_IS_COLOR} environment variable (if set).
             is_color = get_is_color(is_color)
 
-            #!!!!!!!!!!!!!!!!!!!!!!!!!!!!!!!!!!!!!!!!!!!!!!!!!!!!!!!!!!!!!!!!!!!
-            # CAUTION: Synchronize this tuple with the similar
-            # "self._conf_kwargs" dictionary defined below.
-            #!!!!!!!!!!!!!!!!!!!!!!!!!!!!!!!!!!!!!!!!!!!!!!!!!!!!!!!!!!!!!!!!!!!
-            # Efficiently hashable tuple of these parameters in arbitrary order.
-            conf_args = (
-                claw_decor_place_func,
-                claw_decor_place_type,
-                claw_is_pep526,
-                claw_skip_package_names,
-                hint_overrides,
-                is_color,
-                is_debug,
-                is_pep484_tower,
-                is_pep557_fields,
-                is_random,
-                strategy,
-                violation_door_type,
-                violation_param_type,
-                violation_return_type,
-                violation_type,
-                violation_verbosity,
-                warning_cls_on_decorator_exception,
-            )
-
-            # If this method has already instantiated a configuration with these
-            # parameters, return that configuration for consistency and
-            # efficiency.
-            if conf_args in _beartype_conf_args_to_conf:
-                return _beartype_conf_args_to_conf[conf_args]
-            # Else, this method has *NOT* yet instantiated a configuration with
-            # these parameters. In this case, continue to do so and then cache
-            # that configuration.
-
             # Dictionary mapping from the names to values of *ALL* possible
-            # keyword parameters configuring this configuration, intentionally
-            # defined *AFTER* this method first attempts to efficiently reduce
-            # to a noop by returning a previously instantiated configuration.
+            # keyword parameters configuring this configuration.
             conf_kwargs = dict(
                 claw_decor_place_func=claw_decor_place_func,
                 claw_decor_place_type=claw_decor_place_type,
@@ -919,11 +883,39 @@ class BeartypeConf(object):
             default_conf_kwargs(conf_kwargs)
 
             # If one or more passed parameters are invalid, raise an exception.
+            #
+            # Note that these parameters are intentionally validated *BEFORE*
+            # this method attempts to reuse a previously instantiated
+            # configuration. Why? Because invalid parameters can compare and
+            # hash equal to valid parameters (e.g., "is_debug=1" and
+            # "is_debug=True", "violation_verbosity=2" and
+            # "violation_verbosity=BeartypeViolationVerbosity.DEFAULT"), in
+            # which case looking up these parameters first would erroneously
+            # accept invalid parameters if and only if an equal valid
+            # configuration has already been instantiated. Likewise, unhashable
+            # invalid parameters would raise non-human-readable "TypeError"
+            # exceptions rather than the expected exception.
             die_if_conf_kwargs_invalid(conf_kwargs)
             # Else, all passed parameters are valid.
 
             # Sanify all passed parameters *AFTER* validating these parameters.
             sanify_conf_kwargs(conf_kwargs)
+
+            # Efficiently hashable tuple of these parameters in arbitrary order,
+            # intentionally defined *AFTER* defaulting and sanifying these
+            # parameters to guarantee that equivalent parameters (including the
+            # "kwargs" dictionary of a previously instantiated configuration)
+            # map to the same configuration.
+            conf_args = tuple(conf_kwargs.values())
+
+            # If this method has already instantiated a configuration with these
+            # parameters, return that configuration for consistency and
+            # efficiency.
+            if conf_args in _beartype_conf_args_to_conf:
+                return _beartype_conf_args_to_conf[conf_args]
+            # Else, this method has *NOT* yet instantiated a configuration with
+            # these parameters. In this case, continue to do so and then cache
+            # that configuration.
 
             # ..................{ INSTANTIATE                }..................
             # Instantiate a new configuration of this type.
